@@ -595,7 +595,22 @@ func c10Reflect(c *Ctx) {
 				}
 				return sameValueModConv(recvOf(kc), recv) && op == token.EQL
 			})
-			if ok, _ := mustPass(fn, ci.(ssa.Instruction), g); !ok {
+			ok, _ := mustPass(fn, ci.(ssa.Instruction), g)
+			if !ok {
+				// reflect.ValueOf(f.Value()).Int() under a test of f.Kind() (fatih/structs): the kind of
+				// the field is the kind of its value
+				if vo, isCall := strip(recv).(*ssa.Call); isCall && calleeName(vo) == "reflect.ValueOf" {
+					if fv, isCall := strip(arg(vo, 0)).(*ssa.Call); isCall && calleeName(fv) == "(*"+structsPkg+".Field).Value" {
+						fld := recvOf(fv)
+						g2 := GCmp(func(x ssa.Value, op token.Token, y ssa.Value) bool {
+							kc, ok := x.(*ssa.Call)
+							return ok && calleeName(kc) == "(*"+structsPkg+".Field).Kind" && sameValueModConv(recvOf(kc), fld) && op == token.EQL
+						})
+						ok, _ = mustPass(fn, ci.(ssa.Instruction), g2)
+					}
+				}
+			}
+			if !ok {
 				undominated = append(undominated, fmt.Sprintf("%s at %s", m, c.P.Pos(ci.Pos())))
 				if !firstPos.IsValid() {
 					firstPos = ci.Pos()
@@ -791,7 +806,7 @@ func c10HijackNil(c *Ctx) {
 			}
 		}
 	}
-	c.Floor(rule, 4, "two handlers x two transports")
+	c.Floor(rule, 2, "two transports per creation site (two sites on the pinned tree, one when both handlers share a helper)")
 }
 
 // c10RelayConn: forward dereferences its connection in a goroutine nothing recovers; it must be
